@@ -29,7 +29,10 @@ RULE = ("set-up (all subs): 1-5 dimensions (4-5 in ~40%, with few points per dim
         "branch taken, P(interval) >= 1e-6. moments: the model is a user Function subclass whose eval returns its values as "
         "Python float (scalar model) / list / tuple / fresh float64 ndarray / float64 ndarray kept in the model's own table "
         "and handed out again (table must be unchanged afterwards) / float32 ndarray / int64 ndarray (integer valued model), "
-        "output length 1-7, model cache on/off; a vector model (1-2 nowhere-exact base components, 1-3 affine images "
+        "output length 1-7, model cache on/off; 30% of the cases take the basis-grid route (GlobalBSplineGrid / "
+        "GlobalLagrangeGrid, p 1/3, Uniform inputs, d 1-3, calculate_expectation_and_variance(..., scale_weights=True)); "
+        "further drawn options: dim= given explicitly, set_moments_Function([1,2]) instead of "
+        "set_expectation_variance_Function(), modified_basis=True (all-Uniform, no boundary; identities only); a vector model (1-2 nowhere-exact base components, 1-3 affine images "
         "c*f+e, the constants 1 and K) is integrated by SpatiallyAdaptiveSingleDimensions2 on the weighted grid (d 1-5; "
         "d>=4 with lmin=1, lmax=2 and <=3 steps; lmin 1-2, versions 6/2/3/7/8, rebalancing, volume weighting on/off) driven by a scripted decision tape for up to "
         "8 steps; the moment identities AND the weight clauses for the 1D grids of the component grid evaluated last are "
@@ -68,6 +71,9 @@ ASSUMPTIONS = [
     "squares float32 values in float32), constants to 1e-6; int models use integer c, e, K and 8*f rounded; output "
     "length 1 has no constant-1 component: S = 1 is assumed and the bounds are widened by the allowed weight-sum deviation; "
     "class counters model-returns=, output-length=, model-cache=",
+    "basis-grid route: the nodes-and-weights path ignores scale_weights and the weight clauses do not apply to unweighted "
+    "basis grids, so only the moment identities (with S = E[1]) are asserted there; class counters route=, "
+    "scale_weights=, volume!=1, modified_basis=True",
     "class counters: dims=4+, distinct=k, pattern-with-repeat, pattern-with-late-repeat (a repeated entry whose first "
     "occurrence is not at the index equal to the number of distinct entries before it, e.g. [A,A,B,B])",
 ]
@@ -258,7 +264,7 @@ def scale_classes(out, specs, grids=None):
             out.info["min_interval_width"] = -min(w)        # the runner keeps maxima: stored negated
 
 
-def lib_setup(specs, boundary, f=None, string_form=False):
+def lib_setup(specs, boundary, f=None, string_form=False, explicit_dim=False):
     from sparseSpACE.GridOperation import UncertaintyQuantification
     from sparseSpACE.Grid import GlobalTrapezoidalGridWeighted
     from sparseSpACE.Function import FunctionCustom
@@ -272,7 +278,10 @@ def lib_setup(specs, boundary, f=None, string_form=False):
     if f is None:
         f = FunctionCustom(lambda x: 1.0)
     with quiet():
-        op = UncertaintyQuantification(f, infos, a, b, print_level=Q, log_level=Q)
+        if explicit_dim:
+            op = UncertaintyQuantification(f, infos, a, b, dim=len(a), print_level=Q, log_level=Q)
+        else:
+            op = UncertaintyQuantification(f, infos, a, b, print_level=Q, log_level=Q)
         grid = GlobalTrapezoidalGridWeighted(a, b, op, boundary=boundary)
     return op, grid, refs, a, b
 
@@ -733,25 +742,57 @@ def run_moments(case):
     if not case.get("cache", True):
         f.deactivate_caching()
     out.cls("model-returns=" + form, "output-length=%d" % len(comps), "model-cache=%s" % case.get("cache", True))
-    op, grid, refs, a, b = lib_setup(specs, case["boundary"], f=f, string_form=case.get("string_form", False))
+    op, grid, refs, a, b = lib_setup(specs, case["boundary"], f=f, string_form=case.get("string_form", False),
+                                     explicit_dim=case.get("explicit_dim", False))
+    route = case.get("route", "weighted")
+    basis = route != "weighted"
+    if basis:
+        # the basis-grid route: Uniform inputs, an unweighted global basis grid, and the documented switch
+        # scale_weights=True, which divides the combined moments by the volume of the box
+        from sparseSpACE.Grid import GlobalBSplineGrid, GlobalLagrangeGrid
+        assert all(r.fam == "Uniform" for r in refs) and case["boundary"]
+        with quiet():
+            grid = (GlobalBSplineGrid if route == "bspline" else GlobalLagrangeGrid)(a, b, boundary=True, p=case.get("p", 3))
+    modified = (not basis and case.get("modified", False) and not case["boundary"]
+                and all(r.fam == "Uniform" for r in refs))
+    if modified:
+        # documented as Uniform-only: extrapolating basis without boundary points. Its weights are not trapezoidal
+        # weights (they may be negative), so only the moment identities are asserted for it.
+        from sparseSpACE.Grid import GlobalTrapezoidalGridWeighted
+        with quiet():
+            grid = GlobalTrapezoidalGridWeighted(a, b, op, boundary=False, modified_basis=True)
+        out.cls("modified_basis=True")
+    ev_kwargs = dict(scale_weights=True) if basis else {}
+    volume = float(np.prod(b - a)) if all(r.finite for r in refs) else math.inf
+    out.cls("route=" + route, "scale_weights=%s" % basis)
+    if not math.isinf(volume) and abs(volume - 1.0) > 1e-9:
+        out.cls("volume!=1")
     op.set_grid(grid)
-    op.set_expectation_variance_Function()
+    if case.get("ks_form", False):
+        op.set_moments_Function([1, 2])             # the general form of set_expectation_variance_Function()
+    else:
+        op.set_expectation_variance_Function()
     with quiet():
-        sa = SpatiallyAdaptiveSingleDimensions2(a, b, operation=op, norm=2, use_volume_weighting=case["vw"],
-                                                grid_surplusses=op.get_grid(), version=case["version"],
-                                                rebalancing=case["rebalancing"], margin=case["margin"],
-                                                rebalancing_safety_factor=case["safety"], print_level=Q, log_level=Q)
+        if basis:
+            sa = SpatiallyAdaptiveSingleDimensions2(a, b, operation=op, norm=2, version=case["version"],
+                                                    rebalancing=case["rebalancing"], margin=case["margin"],
+                                                    rebalancing_safety_factor=case["safety"], print_level=Q, log_level=Q)
+        else:
+            sa = SpatiallyAdaptiveSingleDimensions2(a, b, operation=op, norm=2, use_volume_weighting=case["vw"],
+                                                    grid_surplusses=op.get_grid(), version=case["version"],
+                                                    rebalancing=case["rebalancing"], margin=case["margin"],
+                                                    rebalancing_safety_factor=case["safety"], print_level=Q, log_level=Q)
     tol_s = sum_tol(refs)
     st_ = dict(strict=0, steps=0, before=None, evals=0)
 
     def on_eval(k):
         st_["evals"] += 1
         with quiet():
-            E, V = op.calculate_expectation_and_variance(sa)
+            E, V = op.calculate_expectation_and_variance(sa, **ev_kwargs)
         judge_moments(out, sub, E, V, layout, tol_s, "after evaluation %d:" % k, rel=rel, suffix=suffix)
         # the 1D grids of the component grid evaluated last are refinement-tree grids produced by the real history
-        # (including rebalancing): the weight clauses apply to them as well
-        for d in range(dim):
+        # (including rebalancing): the weight clauses apply to them as well (weighted route only)
+        for d in range(dim if not (basis or modified) else 0):
             pts = [float(x) for x in grid.coordinate_array_with_boundary[d]]
             if len(pts) >= (2 if case["boundary"] else 3):
                 judge_weights(out, sub, refs[d], pts, grid.weights[d], case["boundary"],
@@ -790,7 +831,8 @@ def run_moments(case):
         return out
     finally:
         del grid.set_grid
-    if st_["evals"] and not out.violations:
+    # (the nodes-and-weights path ignores scale_weights, so it is compared on the weighted route only)
+    if st_["evals"] and not out.violations and not basis:
         with quiet():
             E, V = op.calculate_expectation_and_variance(sa)
             Ea, Va = op.calculate_expectation_and_variance(sa, use_combiinstance_solution=False)
@@ -832,9 +874,11 @@ def _fl(lo, hi):
     return st.floats(lo, hi, allow_nan=False, allow_infinity=False)
 
 
-def draw_spec(draw, boundary, prev, far=False):
+def draw_spec(draw, boundary, prev, far=False, uniform_only=False):
     """one distinct (distribution, interval) entry; prev = the entries drawn before"""
     fams = ["Uniform", "Triangle", "Triangle"] if boundary else ["Uniform", "Triangle", "Triangle", "Normal", "Normal", "NormalT"]
+    if uniform_only:
+        fams = ["Uniform"]
     finite_prev = [p for p in prev if p["fam"] != "Normal"]
     if finite_prev and not far and draw(st.integers(0, 2)) == 0:
         # same distribution info on another interval (the info alone does not identify a Uniform / Triangle)
@@ -872,15 +916,15 @@ DIM_CHOICES = [1, 2, 2, 3, 3, 3, 4, 4, 4, 5]
 SCALES = [1e-15, 1e-12, 1e-12, 1e-9, 1e-9, 1e-6, 1e-3, 1e3, 1e6, 1e9]
 
 
-def draw_dims(draw, maxdim, far=False):
+def draw_dims(draw, maxdim, far=False, uniform_boundary=False):
     """(entries, pattern, boundary): 1..maxdim dimensions whose (distribution, interval) list is a pattern over 1-3
     distinct entries with repeats in arbitrary positions ([A,A,B,B], [A,B,B,A,C], ...)"""
     dim = draw(st.sampled_from([x for x in DIM_CHOICES if x <= maxdim]))
-    boundary = draw(st.booleans())
+    boundary = True if uniform_boundary else draw(st.booleans())
     k = draw(st.integers(1, min(3, dim))) if dim <= 3 else draw(st.sampled_from([1, 2, 2, 2, 3, 3]))
     raw, scales = [], []
     for _ in range(k):
-        e = draw_spec(draw, boundary, raw, far=far)
+        e = draw_spec(draw, boundary, raw, far=far, uniform_only=uniform_boundary)
         if any(spec_key(e) == spec_key(x) for x in raw):
             continue
         # unit of the parameter: half of the entries keep s = 1, the others live at 1e-15 .. 1e9 (per entry different);
@@ -948,10 +992,21 @@ def midpoint_strategy(tier):
 def moments_strategy(tier):
     @st.composite
     def s(draw):
-        entries, pattern, boundary = draw_dims(draw, 5)
+        route = draw(st.sampled_from(["weighted"] * 7 + ["bspline", "bspline", "lagrange"]))
+        modified = draw(st.sampled_from([False, False, False, True]))
+        if route == "weighted" and modified:
+            entries, pattern, boundary = draw_dims(draw, 3, uniform_boundary=True)
+            boundary = False                   # modified basis: all-Uniform, no boundary points
+        elif route == "weighted":
+            entries, pattern, boundary = draw_dims(draw, 5)
+        else:
+            entries, pattern, boundary = draw_dims(draw, 3, uniform_boundary=True)
         dim = len(pattern)
         tape, mode = drive.st_tape(draw, maxlen=24)
-        if dim <= 3:
+        if route != "weighted":
+            lmin, lmax = 1, 2
+            steps = [1, 2, 3]
+        elif dim <= 3:
             lmin = draw(st.integers(1, 2))
             lmax = min(lmin + draw(st.integers(1, 2)), 3 if dim == 3 else 4)
             steps = [1, 2, 3, 4, 6, 8]
@@ -975,7 +1030,11 @@ def moments_strategy(tier):
                     K=draw(st.sampled_from([3.0, -2.0, 1e3, 0.1])),
                     # the user model: output length (0 = full layout nb + affine + 2, i.e. 4..7), form of the value
                     # returned by eval, value cache of the model on/off
-                    L=L, l1=draw(st.sampled_from(["f", "const"])), ret=ret, cache=draw(st.sampled_from([True, True, False])))
+                    L=L, l1=draw(st.sampled_from(["f", "const"])), ret=ret, cache=draw(st.sampled_from([True, True, False])),
+                    # further documented options: explicit dim=, set_moments_Function([1, 2]), basis-grid route with degree p
+                    route=route, p=draw(st.sampled_from([3, 3, 1])), explicit_dim=draw(st.booleans()),
+                    ks_form=draw(st.sampled_from([False, False, True])),
+                    modified=modified)                  # effective for all-Uniform set-ups without boundary
     return s()
 
 
